@@ -299,6 +299,21 @@ theorem mem_allGroups_setGroups (g0 : Nat) : ∀ (ns : List Node) (rs : List Rou
       · exact Or.inl h
       · exact Or.inr (Or.inr h)
 
+theorem allGroups_append : ∀ (a b : List Route), allGroups (a ++ b) = allGroups a ++ allGroups b
+  | [], b => by simp [allGroups]
+  | x :: xs, b => by simp [allGroups, allGroups_append xs b]
+
+theorem mem_allGroups_strip (q : Option Nat) (rs : List Route) (g : Nat) (hne : g ≠ 0)
+    (h : g ∈ allGroups (stripRoutes q ++ rs)) : g ∈ allGroups rs := by
+  rw [allGroups_append] at h
+  rcases List.mem_append.mp h with h | h
+  · exfalso
+    unfold stripRoutes at h
+    split at h
+    · simp [allGroups, allGroupsRoute, allGroupsHandlers, allGroupsHandler] at h; exact hne h
+    · simp [allGroups] at h
+  · exact h
+
 theorem drawGroups_bounds (n c : Nat) :
     c < (drawGroups n c).2 ∧ ((drawGroups n c).1 = 0 ∨ (c < (drawGroups n c).1 ∧ (drawGroups n c).1 ≤ (drawGroups n c).2)) := by
   unfold drawGroups; split <;> simp <;> omega
@@ -324,7 +339,7 @@ theorem adaptNode_fresh : ∀ (n : Node) (c : Nat), FreshIn [(adaptNode n c).1] 
     simp only [allGroups, allGroupsRoute, allGroupsHandlers, allGroupsHandler, List.append_nil, List.mem_cons] at hg
     rcases hg with hg | hg
     · exact absurd hg hne
-    · have h1 := mem_allGroups_consolidate _ g hg
+    · have h1 := mem_allGroups_consolidate _ g (mem_allGroups_strip _ _ g hne hg)
       rcases mem_allGroups_setGroups _ body rs g h1 with h2 | h2
       · rcases hd.2 with h0 | h3
         · rw [h2] at hne; exact absurd h0 hne
@@ -431,7 +446,7 @@ def nodesNoHints : List Node → Bool
   | n :: ns => nodeNoHints n && nodesNoHints ns
 def nodeNoHints : Node → Bool
   | .respond st => st != 103 && decide (st < 1000)
-  | .handle _ body => nodesNoHints body
+  | .handle q body => q != some 100 && nodesNoHints body      -- no `handle_path` either
 end
 
 /-- the marked groups avoid the names `(lo, hi]` -/
@@ -471,7 +486,12 @@ theorem adaptNode_sem : ∀ (n : Node) (c g : Nat) (taken : Bool) (k : K) (r : R
     simp [adaptNode, Node.isHandle, evalNode, Outcome, runRoute, anyMatch, groupDone,
       runHandlers, runHandler, answerStep, Src.resolve, hh.1, hlt]
   | .handle q body, c, g, taken, k, r, t, hh, hd, hg, h0 => by
-    simp only [nodeNoHints] at hh
+    simp only [nodeNoHints, Bool.and_eq_true, bne_iff_ne, ne_eq] at hh
+    obtain ⟨hq, hh⟩ := hh
+    have hstrip : stripRoutes q = [] := by
+      unfold stripRoutes; split
+      · exact absurd rfl hq
+      · rfl
     have hfb := adaptNodes_fresh body c
     have ihb := adaptNodes_sem body c
     simp only [adaptNode, Node.isHandle, if_true, Route.withGroup] at hd hg ⊢
@@ -487,7 +507,8 @@ theorem adaptNode_sem : ∀ (n : Node) (c g : Nat) (taken : Bool) (k : K) (r : R
       cases q with
       | none => simp [handleSets, anyMatch, nodeMatches]
       | some v =>
-        simp only [handleSets, anyMatch, List.isEmpty_cons, Bool.false_eq_true, if_false, evalAny, evalSet,
+        have hv : v ≠ 100 := fun h => hq (by rw [h])
+        simp only [handleSets, hv, if_false, anyMatch, List.isEmpty_cons, Bool.false_eq_true, evalAny, evalSet,
           evalMatcher, nodeMatches, Req.get]
         cases ([v].contains r.path) <;> rfl
     simp only [evalNode, runRoute, hm]
@@ -512,7 +533,7 @@ theorem adaptNode_sem : ∀ (n : Node) (c g : Nat) (taken : Bool) (k : K) (r : R
           · simp [groupDone, hne]
           · simp [groupDone, hne, hnotin hne]
         simp only [Bool.false_eq_true, if_false, hgd, runHandlers]
-        rw [runHandler_sub_without_errors, consolidate_preserves_behaviour]
+        rw [runHandler_sub_without_errors, hstrip, List.nil_append, consolidate_preserves_behaviour]
         -- inside the block
         have hcb : cb < c2 := hdg.1
         have hdisj1 : Disj (markGroup g r).groups c cb := by
